@@ -54,7 +54,9 @@ const SecretMarker = "INTERNAL-DETAIL-7f3a"
 // temporary-marked, network error, plain) and a wrapping pattern (field
 // wrappers, %w wrappers, extra consistent temporary markers) nested up to
 // depth 4. Every value is self-consistent: along its Unwrap chain all
-// Temporary() markers and SMTP code classes agree or are absent. Annotated
+// Temporary() markers and SMTP code classes agree or are absent - except for
+// one wrapper (re-annotation) whose outermost annotation differs from what it
+// wraps and governs. Annotated
 // errors carry "tempfail"/"permfail" in their client-facing text so that a
 // reply can be matched with the class that was injected; unannotated texts
 // and wrapped causes carry SecretMarker.
@@ -67,7 +69,19 @@ func MkErr(o Outcome, variant int, where string) error {
 	}
 	base := mkBaseErr(o, variant%8, where)
 	temp := o == Temp
-	switch (variant / 8) % 6 {
+	switch (variant / 8) % 7 {
+	case 6:
+		// re-annotation: an outer SMTP annotation of the requested class that
+		// has a basic code only, around an annotated error of the *other*
+		// class (what a module gets when it classifies a downstream failure
+		// itself). The outermost annotation governs: basic code, retry
+		// treatment - and the enhanced code must not be taken from below.
+		switch o {
+		case Temp:
+			return &exterrors.SMTPError{Code: 451, Message: "tempfail re-annotated " + where, TargetName: "scripted", Err: mkBaseErr(Perm, variant%8, where)}
+		case Perm:
+			return &exterrors.SMTPError{Code: 554, Message: "permfail re-annotated " + where, TargetName: "scripted", Err: mkBaseErr(Temp, variant%8, where)}
+		}
 	case 1:
 		return exterrors.WithFields(base, map[string]interface{}{"where": where})
 	case 2:
